@@ -42,7 +42,10 @@ def check_options():
 
     if options.args().parser_test:
         # only parse and print
-        exprs = list(nodeio.parse_smtlib(open(options.args().infile).read()))
+        # (newline='': a CR in a string literal or quoted symbol is part of it)
+        exprs = list(
+            nodeio.parse_smtlib(
+                open(options.args().infile, newline='').read()))
         print(nodeio.write_smtlib(sys.stdout, exprs))
         sys.exit(0)
 
@@ -118,7 +121,9 @@ def ddsmt_main():
 
         # parse the input
         start_time = time.time()
-        with open(options.args().infile, 'r') as infile:
+        # newline='': no translation of line ends, a CR (LF) inside a string
+        # literal or quoted symbol belongs to that token
+        with open(options.args().infile, 'r', newline='') as infile:
             exprs = list(nodeio.parse_smtlib(infile.read()))
             nexprs = nodes.count_exprs(exprs)
 
